@@ -1,20 +1,21 @@
 #!/bin/bash
-# Confirms second-round mutations produced by sub-agents in /tmp/mut2/out and stores the confirmed ones
+# Confirms second-round mutations produced by sub-agents in ${OUT:-/tmp/mut2/out} and stores the confirmed ones
 # under /verif/seeded/<id>_n<k>/ (patch.diff, demo_test.go, meta.json).
 export GOFLAGS=-mod=mod GOPROXY=off GOSUMDB=off
+export OUT=${OUT:-/tmp/mut2/out} SUF=${SUF:-n} ROUND=${ROUND:-2}
 S=/var/tmp/confirm2
-for d in /tmp/mut2/out/*_n[12].diff; do
+for d in ${OUT:-/tmp/mut2/out}/*_${SUF:-n}[12].diff; do
   name=$(basename $d .diff); id=${name%%_*}
   [ -n "$1" ] && [ "$1" != "$id" ] && [ "$1" != "$name" ] && continue
-  demo=/tmp/mut2/out/${name}_demo_test.go
+  demo=${OUT:-/tmp/mut2/out}/${name}_demo_test.go
   [ -f $demo ] || { echo "$name: no demo"; continue; }
   rm -rf $S; mkdir -p $S; (cd /repo && git ls-files -z | xargs -0 cp --parents -t $S)
   cd $S
   cp $demo zz_demo_test.go
-  run=$(grep -o "func TestDemoN[0-9A-Za-z_]*" zz_demo_test.go | head -1 | sed 's/func //')
-  base=$(go test -vet=off -count=1 -run "TestDemoN" . 2>&1 | tail -1)
+  run=$(grep -o "func TestDemo[0-9A-Za-z_]*" zz_demo_test.go | head -1 | sed 's/func //')
+  base=$(go test -vet=off -count=1 -run "TestDemo" . 2>&1 | tail -1)
   if ! patch -s -p1 < $d >/dev/null 2>&1; then echo "$name: patch does not apply"; continue; fi
-  mut=$(go test -vet=off -count=1 -run "TestDemoN" . 2>&1 | tail -1)
+  mut=$(go test -vet=off -count=1 -run "TestDemo" . 2>&1 | tail -1)
   rm zz_demo_test.go
   suite=$(go test -vet=off -count=1 ./... 2>&1 | grep -c "^FAIL\|^---")
   okb=$(echo "$base" | grep -c "^ok"); okm=$(echo "$mut" | grep -c "^FAIL")
@@ -23,8 +24,8 @@ for d in /tmp/mut2/out/*_n[12].diff; do
     python3 - "$name" <<'PY'
 import json,sys
 n=sys.argv[1]
-m=json.load(open('/tmp/mut2/out/%s.json'%n))
-m['round']=2
+m=json.load(open(__import__('os').environ.get('OUT','/tmp/mut2/out')+'/%s.json'%n))
+m['round']=int(__import__('os').environ.get('ROUND','2'))
 m['confirmed']={'ran':['patch applied to a scratch copy of the current tree','suite passes with the change','demo fails with the change','demo passes without it']}
 json.dump(m,open('/verif/seeded/%s/meta.json'%n,'w'),indent=1)
 PY
